@@ -2,6 +2,7 @@
 package c18
 
 import (
+	"errors"
 	"fmt"
 	"os"
 	"regexp"
@@ -34,6 +35,9 @@ const (
 
 type Act struct {
 	Poison bool       `json:"poison,omitempty"` // create: the local replicas' log stores are corrupt (raft panics while loading them)
+	// Unreadable (with Poison): the stored snapshot of the local replicas' log stores cannot be read instead: starting the
+	// raft group returns an error, which the allocator ignores; the partition is unloaded later like any other
+	Unreadable bool `json:"unreadable,omitempty"`
 	K      int        `json:"k"`
 	Node   uint64     `json:"node,omitempty"`
 	Slot   int        `json:"slot,omitempty"`
@@ -84,6 +88,7 @@ func genCase(t *rapid.T) Case {
 			a.Slot = rapid.IntRange(0, 7).Draw(t, "slot")
 			a.Nodes = rapid.SliceOfN(nodeSet, 1, 8).Draw(t, "nodes")
 			a.Poison = rapid.IntRange(0, 5).Draw(t, "poison") == 0
+			a.Unreadable = a.Poison && rapid.Bool().Draw(t, "unreadable")
 			a.Repl = rapid.SampledFrom([]int{1, 1, 2, 3}).Draw(t, "repl")
 		case ActDelete:
 			a.Slot = rapid.IntRange(0, 7).Draw(t, "slot")
@@ -99,6 +104,18 @@ func genCase(t *rapid.T) Case {
 	c := Case{Loop: rapid.SliceOfN(act, 4, pbt.Pick(40, 80)).Draw(t, "loop"), Join: rapid.SliceOfN(joinAct, 0, 20).Draw(t, "join")}
 	c.Commit = rapid.IntRange(0, 2).Draw(t, "commit") > 0
 	c.Lag = rapid.IntRange(0, 3).Draw(t, "lag")
+	// one case in thirty: a storm of membership changes (a flapping peer's history replayed after a restart, a follower
+	// catching up) while this node leads an under-replicated partition and its proposals are committed with a lag - the
+	// allocator's backlog of reactions grows far beyond any fixed bound
+	if rapid.Uint64().Draw(t, "storm")%30 == 17 {
+		c.Commit, c.Lag = true, 3
+		storm := []Act{{K: ActCreate, Slot: 9, Nodes: [][]uint64{{self}}, Repl: 3}}
+		for i := 0; i < 120; i++ {
+			storm = append(storm, Act{K: ActAddNode, Node: uint64(7000 + i)})
+		}
+		at := rapid.IntRange(0, len(c.Loop)).Draw(t, "stormat")
+		c.Loop = append(append(append([]Act(nil), c.Loop[:at]...), storm...), c.Loop[at:]...)
+	}
 	c.Late = rapid.IntRange(0, 3).Draw(t, "late") == 0
 	return c
 }
@@ -109,6 +126,12 @@ func (c corruptWAL) InitialState() (raftpb.HardState, raftpb.ConfState, error) {
 	return raftpb.HardState{Term: 1, Commit: 3}, raftpb.ConfState{}, nil
 }
 
+type unreadableWAL struct{ wal.WAL }
+
+func (c unreadableWAL) Snapshot() (raftpb.Snapshot, error) {
+	return raftpb.Snapshot{}, errors.New("sim: stored snapshot is damaged")
+}
+
 var cyclePat = regexp.MustCompile(`Allocator\)\.(watch|unwatch)|Allocator\)\.(addNodeToPartitions|removeNodeFromPartitions|runNodeChanges)|Conn\)\.sendNodesChangeNotification|Conn\)\.(AddNode|RemoveNode|NodeIds)`)
 
 // runOnce executes the program; returns "" if everything completed, else a
@@ -117,14 +140,19 @@ func runOnce(c Case, stallAfter time.Duration, o *pbt.Obs) (stall string, pendin
 	// partitions of "poisoned" datasets get a log store whose hard state points past its (empty) log:
 	// raft panics while loading it, which the allocator loop is written to survive
 	poisoned := map[uuid.UUID]bool{}
+	unreadable := map[uuid.UUID]bool{}
 	for _, a := range c.Loop {
 		if a.K == ActCreate && a.Poison {
 			for p := range a.Nodes {
 				poisoned[catalog.PartitionID(a.Slot, 0, p)] = true
+				unreadable[catalog.PartitionID(a.Slot, 0, p)] = a.Unreadable
 			}
 		}
 	}
 	storage.VerifSetWALWrapper(func(id uuid.UUID, w wal.WAL) wal.WAL {
+		if poisoned[id] && unreadable[id] {
+			return unreadableWAL{w}
+		}
 		if poisoned[id] {
 			return corruptWAL{w}
 		}
@@ -366,6 +394,9 @@ func check(c Case, o *pbt.Obs) *pbt.Failure {
 	if changes+len(c.Join) > 10 {
 		o.Label("burst>10-membership-changes")
 	}
+	if changes > 100 {
+		o.Label("storm-of-membership-changes")
+	}
 	if stall == "" {
 		return nil
 	}
@@ -387,7 +418,7 @@ func check(c Case, o *pbt.Obs) *pbt.Failure {
 func TestControlPlaneNeverWedges(t *testing.T) {
 	pbt.Run(t, pbt.Prop[Case]{
 		ID: "C18", Name: "TestControlPlaneNeverWedges",
-		Rule:  "rapid-generated programs on real Allocator + Conn + DatasetManager objects (scripted zero group): one goroutine plays the zero group's ready loop and performs, in generated order, Conn.AddNode/RemoveNode (as processConfChange does) and catalogue applies (create datasets with 1-8 partitions incl. partitions placed on this node, delete datasets; one create in six gets corrupt local log stores so that loading their raft groups panics, which the allocator loop must survive); a second goroutine adds up to 20 peers (join at start-up); in two thirds of the cases the scripted zero group accepts the allocator's own proposals (replica-set changes for partitions it leads) and the ready-loop goroutine applies each one 0-3 steps after it first sees it, i.e. behind entries that were ahead of it in the log; in a quarter of those the proposing goroutine runs again only once its proposal has been applied; then a probe create and a probe AddNode must complete, and after a further peer joins the allocator must propose it for an under-replicated partition this node leads. A stall is reported only if nothing completes for 10 s and the goroutine dump shows the program's repository goroutines all parked in blocking waits inside Allocator.watch/unwatch/addNodeToPartitions/removeNodeFromPartitions or Conn notification code, unchanged in a second dump 2 s later (a dead state); otherwise the case is counted inconclusive. non-trivial = the loop mixes membership changes with catalogue applies; distinct = distinct case JSON",
+		Rule:  "rapid-generated programs on real Allocator + Conn + DatasetManager objects (scripted zero group): one goroutine plays the zero group's ready loop and performs, in generated order, Conn.AddNode/RemoveNode (as processConfChange does) and catalogue applies (create datasets with 1-8 partitions incl. partitions placed on this node, delete datasets; one create in six gets damaged local log stores - loading their raft groups panics, or starting them returns an error - which the allocator loop must survive, and such partitions are unloaded later like any other); a second goroutine adds up to 20 peers (join at start-up); in two thirds of the cases the scripted zero group accepts the allocator's own proposals (replica-set changes for partitions it leads) and the ready-loop goroutine applies each one 0-3 steps after it first sees it, i.e. behind entries that were ahead of it in the log; in a quarter of those the proposing goroutine runs again only once its proposal has been applied; then a probe create and a probe AddNode must complete, and after a further peer joins the allocator must propose it for an under-replicated partition this node leads. A stall is reported only if nothing completes for 10 s and the goroutine dump shows the program's repository goroutines all parked in blocking waits inside Allocator.watch/unwatch/addNodeToPartitions/removeNodeFromPartitions or Conn notification code, unchanged in a second dump 2 s later (a dead state); otherwise the case is counted inconclusive. non-trivial = the loop mixes membership changes with catalogue applies; distinct = distinct case JSON",
 		Gen:   genCase,
 		Check: check,
 	})
